@@ -272,6 +272,8 @@ type Scenario struct {
 	CropCols   []OutCol
 
 	ExtraArgs []string // extra key=value tokens on the batch line
+	// Hot: the rarely taken choices of generator and file writers are taken with probability one half (see hotGen)
+	Hot bool `json:",omitempty"`
 	// SessionWarmup: a sister project (own fertiliser table with other contents) is run first in the same session (C10, 10 %)
 	SessionWarmup bool `json:",omitempty"`
 	// SoilClassicCols: the csv soil file keeps the columns of the classic file next to the documented ones (forced for one project of a batch session)
@@ -571,6 +573,9 @@ func GenScenario(prop string, seed uint64, idx int) *Scenario {
 	return genWithProfile(prop, seed, idx, r, p)
 }
 
+// the simulation checks whose cases may be "hot" (not the paired and batch checks: their projects are built for specific comparisons)
+var hotProps = map[string]bool{"C01": true, "C02": true, "C04": true, "C05": true, "C06": true, "C07": true, "C08": true, "C09": true, "C10": true, "C15": true, "C16": true, "C19": true, "C20": true}
+
 func hashStr(s string) uint64 {
 	var h uint64 = 1469598103934665603
 	for i := 0; i < len(s); i++ {
@@ -582,6 +587,11 @@ func hashStr(s string) uint64 {
 
 func genWithProfile(prop string, seed uint64, idx int, r *Rng, p Profile) *Scenario {
 	sc := &Scenario{Prop: prop, Seed: seed, Index: idx}
+	if hotProps[prop] && NewRng(mix(mix(seed, uint64(idx)), 7777)).F() < 0.04 {
+		sc.Hot = true
+	}
+	hotGen = sc.Hot
+	defer func() { hotGen = false }()
 	sc.Project = "vp"
 	sc.PlotNr = strconv.Itoa(r.Range(1, 9999))
 	sc.Polygon = "P" + strconv.Itoa(r.Range(1, 999))
